@@ -105,6 +105,9 @@ class Shadow:
         for n, d in list(zip(names[len(names) - len(a.defaults) :], a.defaults)) + [(x.arg, d) for x, d in zip(a.kwonlyargs, a.kw_defaults) if d is not None]:
             if n not in frame:
                 frame[n] = self.ev(d, {}, fi)
+        for n in names + [x.arg for x in a.kwonlyargs]:
+            if n not in frame:  # an input the rule does not model (e.g. a config object): a record with symbolic fields
+                frame[n] = Obj(n)
         try:
             self.block(fi.node.body, frame, fi)
         except _Return as r:
@@ -374,6 +377,8 @@ class Shadow:
             except Unsupported:
                 recv = None  # e.g. a class name used to reach a static method
             return self.opaque[f.attr](self, args(), {k.arg: self.ev(k.value, fr, fi) for k in e.keywords if k.arg}, recv)
+        if isinstance(f, ast.Name) and f.id in self.opaque:  # a helper the rule models, reached by bare name (moved to module level)
+            return self.opaque[f.id](self, args(), {k.arg: self.ev(k.value, fr, fi) for k in e.keywords if k.arg}, None)
         # ---- builtins
         if isinstance(f, ast.Name) and f.id in ("tuple", "list", "iter"):
             a = args()
